@@ -293,6 +293,38 @@ let predict_pb setup op =
     | UB -> Printf.sprintf "%d:UB" k in
   Printf.sprintf "n=%d ? ks=%s" n (tokens_of n tok)
 
+(* ------------------------------------------------------------------ configuration: the double format *)
+(* "df<g|t|x>,<hexfmt|->": scope and format *)
+let df_of o =
+  if String.length o < 5 || o.[3] <> ',' then raise Unmodelled;
+  let scope = match o.[2] with 'g' -> z_of_int 0 | 't' -> z_of_int 1 | 'x' -> z_of_int 7 | _ -> raise Unmodelled in
+  let body = String.sub o 4 (String.length o - 4) in
+  (scope, if body = "-" then None else Some (bytes_of_hex body))
+
+(* the setup is any fault-free history of such calls (other setup operations do not touch the
+   configuration); the test is one call; thread id 1 is the driver's only thread *)
+let predict_df setup op =
+  let tid = z_of_int 1 in
+  let c0 = { fc_st = fmt_init; fc_gblk = None; fc_tblk = None } and s0 = { nreq = O; live = [] } in
+  let (c, s) = List.fold_left (fun (c, s) o ->
+      if kind o <> "df" then (c, s) else
+      let (scope, fmt) = df_of o in
+      match set_format_cfg no_fault c tid fmt scope s with
+      | Ok ((c', _), s') -> (c', s')
+      | _ -> raise Unmodelled) (c0, s0) setup in
+  let (scope, fmt) = df_of op in
+  let n = match set_format_cfg no_fault c tid fmt scope s with
+    | Ok (_, s') -> int_of_nat s'.nreq - int_of_nat s.nreq
+    | _ -> raise Unmodelled in
+  let tok k =
+    match set_format_cfg (single_fault (nat_of_int (int_of_nat s.nreq + k))) c tid fmt scope s with
+    | Ok ((c', rc), s') ->
+      if rc = Z0 then Printf.sprintf "%d:N:-0" k
+      else Printf.sprintf "%d:F0:%s%d" k
+          (if effective c'.fc_st tid = effective c.fc_st tid && c' = c then "u" else "c") (len s'.live - len s.live)
+    | _ -> Printf.sprintf "%d:UB" k in
+  Printf.sprintf "n=%d ? ks=%s" n (tokens_of n tok)
+
 let run line =
   match String.split_on_char ' ' line with
   | [ks; setup; test] ->
@@ -309,6 +341,7 @@ let run line =
            | "ds" -> if setup = [] then predict_ds () else raise Unmodelled
            | "js" -> predict_js setup op
            | "Ps" | "Pa" | "Pm" -> predict_pb setup op
+           | "df" -> predict_df setup op
            | _ -> raise Unmodelled)
         | _ -> raise Unmodelled)
      with Unmodelled | Not_found | Failure _ | Invalid_argument _ -> wild)
